@@ -6,11 +6,11 @@ ID = 'C17'
 HARNESSES = ['h_c01.cpp', 'h_load.cpp']
 LEVEL = 'model_checking'
 BUDGET = {'quick': 290, 'thorough': 3400}
-BOUNDS = {'quick': 'API-built content at L-1, L, L+1 and a far value for: description 255, parameter/group name 127, dimension extent 255, string length 255, int16 extremes, 7 dimensions, 255 points, 255 channels; payload symbolic where it does not fix a loop bound. At or below L: the C01 equality; beyond L: write throws, or the saved file loads to the same content (same equality)',
+BOUNDS = {'quick': 'API-built content at L-1, L, L+1 and a far value for: description 255, parameter/group name 127, dimension extent 255, string length 255, int16 extremes, 7 dimensions, 127 groups, 255 points, 255 channels; payload symbolic where it does not fix a loop bound. At or below L: the C01 equality; beyond L: write throws, or the saved file loads to the same content (same equality)',
           'thorough': 'plus 255 points, 255 channels, 255 parameter blocks (API) and reference-encoded files with 32767 frames, last frame 65535, 255 parameter blocks through load -> save -> load'}
 OUTSIDE = 'more than 32767 frames through the API (hours in the interpreter); pairs of limits beyond those listed; 65535 points'
 ASSUMPTIONS = ['long texts use a fixed character (their content is not the subject, their length is)']
-LIM = {0: ('description', 255), 1: ('parameter-name', 127), 2: ('group-name', 127), 3: ('extent', 255), 4: ('string-length', 255), 5: ('int16', 32767), 6: ('dimensions', 7), 7: ('points', 255), 8: ('channels', 255), 9: ('parameter-blocks', 255)}
+LIM = {0: ('description', 255), 1: ('parameter-name', 127), 2: ('group-name', 127), 3: ('extent', 255), 4: ('string-length', 255), 5: ('int16', 32767), 6: ('dimensions', 7), 7: ('points', 255), 8: ('channels', 255), 9: ('parameter-blocks', 255), 10: ('groups', 127)}
 
 def jobs(tier, seed):
     out = []
@@ -20,6 +20,7 @@ def jobs(tier, seed):
         for v in (L - 1, L, L + 1, L + 45, 2 * L + 2): J(kind, v)
     for v in (32766, 32767, 32768, 40000, 65535, 65536, 70000): J(5, v)
     for v in (6, 7, 8, 9): J(6, v)
+    for v in (126, 127, 128, 129, 200): J(10, v)
     for kind in (7, 8):
         for v in ((255, 256) if tier == 'quick' else (254, 255, 256, 300)): J(kind, v)
     if tier == 'thorough':
